@@ -155,6 +155,13 @@ def run(db, chk):
     if n_regions == 0:
         raise AnalysisBroken("no run_blocks call site found")
 
+    chk.absorb(db, "C11", {"C11-A1", "C11-A2a", "C11-A2b", "C11-A2c", "C11-A7", "C11-P1", "C11-A3b"}, "C10-X4",
+               "the worker pool hands every block to exactly one worker and returns after all of them "
+               "finished (shared with C11: hand-off orders, pause / resume handshake, block partition)",
+               min_instances=10)
+    chk.absorb(db, "C06", {"C06-F3"}, "C10-X5", "breadth-first levels never contain a node together with one "
+               "of its receivers (shared with C06-F3): level-parallel kernels read finished receivers only",
+               min_instances=30)
     # ---- X2 / X3: router --------------------------------------------------------------------
     def is_donor_write(node):
         t = pp(node)
